@@ -193,6 +193,45 @@ def monitor(cfg, steps, outs, labels, asts):
     return bad
 
 
+def candidate_filter_tie(run, router):
+    """Every wanted role (None, primary, replica, mirror) x every address list over {primary, replica, mirror} of length <= 4:
+    the real `impl PartialEq<Option<Role>> for Role` used as in ConnectionPool::get's filter vs Route/Model.v candidates."""
+    import itertools
+    names = ["primary", "replica", "mirror"]
+    coqn = {"primary": "Primary", "replica": "Replica", "mirror": "Mirror", None: None}
+    lists = [list(t) for n in range(0, 5) for t in itertools.product(names, repeat=n)]
+    wants = [None, "primary", "replica", "mirror"]
+    cases = [(w, l) for w in wants for l in lists]
+    res = RL.run_router(router, [{"settings": settings_json((True, True, False, None)),
+                                  "steps": [{"op": "role_eq", "want": w, "addrs": l}]} for w, l in cases])
+    exprs = []
+    for w, l in cases:
+        addrs = "[" + "; ".join("{| a_id := %d; a_shard := 0; a_role := %s |}" % (i, coqn[r]) for i, r in enumerate(l)) + "]"
+        exprs.append("map (fun a => N.of_nat (a_id a)) (candidates %s None %s)" % ("None" if w is None else "(Some %s)" % coqn[w], addrs))
+    vals = vlib.coq_eval("c05filter", "From Coq Require Import List Bool Arith NArith.\nFrom PV Require Import Route.Model.\nImport ListNotations.", exprs, shard=120)
+    bad = 0
+    for (w, l), r, v in zip(cases, res, vals):
+        o = r["out"][0]
+        model = [int(x) for x in vlib.parse_coq(v)]
+        impl = o.get("kept") if "panic" not in o else "panic"
+        # the property's own rule: a request for role r is served only by servers of role r; no preference = any server
+        want_ids = [i for i, x in enumerate(l) if w is None or x == w]
+        if impl != want_ids:
+            run.violation("counterexample", "ConnectionPool::get's candidate filter (`address.role == role`): a request for role %s over servers %s keeps %s, "
+                          "the property allows %s" % (w, l, impl, want_ids), {"input": {"want": w, "addrs": l}, "impl": impl, "expected": want_ids, "model": model})
+            bad += 1
+        elif model != impl:
+            run.violation("tie-broken", "Route/Model.v candidates and the real candidate filter differ for role %s over %s: model %s, implementation %s" % (w, l, model, impl),
+                          {"correspondence": "Route.Model.candidates vs impl PartialEq<Option<Role>> for Role", "input": {"want": w, "addrs": l}}, found_input=False)
+            bad += 1
+        if bad >= 3:
+            break
+    run.cov["candidate_filter_cases"] = len(cases)
+    run.cov["evaluations"] += len(cases)
+    run.cov["traces_validated_against_impl"] += len(cases)
+    return bad == 0
+
+
 def check(run):
     quick = run.tier == "quick"
     rng = run.rng
@@ -201,7 +240,7 @@ def check(run):
         "sqlparser 0.52 is environment: the model starts at the abstract AST; harness/src/astproj.rs (trusted glue, ~100 lines) projects the real AST, "
         "cross-checked per run against the generator's own label and against an independent whole-statement visitor (any_lock / any_mut flags)",
         "db_activity_based_routing (process-global moka caches, time dependent) is an oracle input of the model (theorems quantify over it) and is kept OFF in the correspondence",
-        "pool.get's candidate filter (role, shard, skip unusable) is transcribed in Route/Model.v and proved about; ConnectionPool::get cannot run without servers at library level: not tied here (wire-level harness)",
+        "pool.get's candidate filter (role, shard, skip unusable) is transcribed in Route/Model.v and proved about; its role comparison (impl PartialEq<Option<Role>> for Role) is run on real Address values for every wanted role x every server list of length <= 4 and compared with Model.candidates; the rest of ConnectionPool::get needs servers and is exercised by C07's wire scenarios",
         "a role decision is used by client.rs only at the next checkout; in-transaction messages never re-route (read, client.rs:1175-1330)",
         "functions with side effects (SELECT nextval(..)) are plain reads for any SQL parser: outside the syntactic property",
     ]
@@ -216,6 +255,10 @@ def check(run):
                       {"correspondence": "router harness build", "log": blog[-3000:]}, found_input=False)
         return
     router = bins["router"]
+
+    # ---- 0. the candidate filter of pool.get: `address.role == role` on real Address values vs role_matches ----
+    if not candidate_filter_tie(run, router):
+        return
 
     # ---- 1. statements and messages ---------------------------------------------------------
     stmts = G.statements(rng, 2000 if quick else 12000, 2 if quick else 4)
